@@ -207,8 +207,11 @@ def finish(ctx, level_note=""):
         "wall_s": round(time.time() - ctx.t0, 2),
         "violations": len(fresh) + (1 if (failed_obl and not fresh) else 0),
     }
-    os.makedirs(os.path.join(VERIF, "evidence"), exist_ok=True)
-    with open(os.path.join(VERIF, "evidence", prop + ".json"), "w") as f:
+    # evidence/ only ever describes runs against /repo itself; runs against a scratch tree
+    # (VERIF_REPO=...) are development experiments and are recorded under build/
+    evdir = os.path.join(VERIF, "evidence") if os.path.realpath(vlib.REPO) == "/repo" else os.path.join(BUILD, "evidence-scratch")
+    os.makedirs(evdir, exist_ok=True)
+    with open(os.path.join(evdir, prop + ".json"), "w") as f:
         json.dump(ev, f, indent=1, default=repr)
     for l in lines:
         print(l)
